@@ -19,6 +19,17 @@ S_3x    == <<51, 120>>               \* "3x"     starts like a number
 S_inf   == <<105, 110, 102>>         \* "inf"
 S_nan   == <<110, 97, 110>>          \* "nan"
 S_1_0   == <<49, 95, 48>>            \* "1_0"
+\* numerals far from 1: a number beyond the exact fragment ("1e300" * "1e300"
+\* is #NUM!, there is no infinity), a tiny one, and one beyond every number
+\* ("1e400": no number can hold it, so it is other text, ="1e400"+0 is #VALUE!)
+S_1e300   == <<49, 101, 51, 48, 48>>          \* "1e300"
+S_m25e300 == <<45, 50, 46, 53, 69, 43, 51, 48, 48>>   \* "-2.5E+300"
+S_1em300  == <<49, 101, 45, 51, 48, 48>>      \* "1e-300"
+S_1e400   == <<49, 101, 52, 48, 48>>          \* "1e400"
+\* digits which are not ASCII digits do not make numeric text
+S_ar3   == <<1635>>                  \* ARABIC-INDIC DIGIT THREE
+S_1sup2 == <<49, 178>>               \* "1" and SUPERSCRIPT TWO
+S_fw12  == <<65297, 65298>>          \* FULLWIDTH DIGIT ONE, FULLWIDTH DIGIT TWO
 \* text that spells a logical is text, not a logical and not numeric text:
 \* "TRUE"+1 is #VALUE! (TRUE+1 is 2), "TRUE"&1 is "TRUE1", "TRUE" < TRUE
 S_TRUE  == <<84, 82, 85, 69>>                \* "TRUE"
@@ -36,6 +47,8 @@ MCPool == <<
    Text(S_3), Text(S_m1), Text(S_05), Text(S_sp3sp),
    Text(S_a), Text(S_A), Text(S_b), Text(S_empty), Text(S_3x),
    Text(S_inf), Text(S_nan), Text(S_1_0),
+   Text(S_1e300), Text(S_m25e300), Text(S_1em300), Text(S_1e400),
+   Text(S_ar3), Text(S_1sup2), Text(S_fw12),
    Text(S_TRUE), Text(S_true), Text(S_False), Text(S_spFALSE),
    Text(S_ref), Text(S_na), Text(S_empty_code),
    TRUEV, FALSEV,
@@ -77,6 +90,31 @@ ASSUME Examples ==
    /\ ApplyS("=", Text(S_a), Text(S_A)) = TRUEV
    /\ ApplyS("+", Text(S_inf), IntV(1)) = VALUE
    /\ ApplyS("+", Text(S_ref), IntV(1)) = VALUE
+   /\ ApplyS("+", Text(S_ar3), IntV(1)) = VALUE               \* not the number 3
+   /\ ApplyS("*", IntV(2), Text(S_1sup2)) = VALUE
+   /\ Apply1S("u-", Text(S_fw12)) = VALUE
+   /\ ApplyS("&", Text(S_fw12), IntV(1)) = Text(S_fw12 \o <<49>>)
+   /\ ApplyS("=", Text(S_ar3), IntV(3)) = FALSEV /\ ApplyS("=", Text(S_ar3), Text(S_3)) = FALSEV
+   /\ ApplyS(">", Text(S_1sup2), IntV(400)) = TRUEV
+   /\ ToNumS(Text(S_1e300)) = Big(1, 300) /\ ToNumS(Text(S_m25e300)) = Big(-1, 300)
+   /\ ToNumS(Text(S_1em300)) = Big(1, -300)
+   /\ ApplyS("+", Text(S_1e400), IntV(0)) = VALUE             \* no number can hold it
+   /\ ApplyS("*", Text(S_1e400), IntV(0)) = VALUE             \* (not 0, not a not-a-number)
+   /\ ApplyS("-", IntV(1), Text(S_1e400)) = VALUE
+   /\ Apply1S("u-", Text(S_1e400)) = VALUE
+   /\ ApplyS("&", Text(S_1e400), IntV(1)) = Text(S_1e400 \o <<49>>)
+   /\ ApplyS(">", Text(S_1e400), IntV(400)) = TRUEV           \* it is text
+   /\ ApplyS("*", Text(S_1e300), Text(S_1e300)) = NUM         \* 1E600: beyond the range
+   /\ ApplyS("*", Text(S_1e300), Text(S_m25e300)) = NUM
+   /\ ApplyS("/", Text(S_1e300), Text(S_1em300)) = NUM
+   /\ ApplyS("^", Text(S_1e300), IntV(2)) = NUM
+   /\ ApplyS("*", Text(S_1e300), Text(S_1em300)) = U("num")   \* about 1
+   /\ ApplyS("*", Text(S_1e300), Blank) = Zero
+   /\ ApplyS("/", Text(S_1e300), FALSEV) = DIV0
+   /\ ApplyS("+", Text(S_1e300), Text(S_a)) = VALUE
+   /\ ApplyS("+", Text(S_1e300), Text(S_1e300)) = U("num")    \* 2E300
+   /\ ApplyS("^", Text(S_m25e300), Num(1, 2)) = NUM           \* no real root
+   /\ Apply1S("%", Text(S_1e300)) = U("num")
    /\ ApplyS("&", Text(S_na), Text(S_a)) = Text(S_na \o S_a)
    /\ ApplyS("=", Text(S_na), Text(S_na)) = TRUEV
    /\ ApplyS(">", Text(S_ref), IntV(400)) = TRUEV            \* it is text: above every number
